@@ -351,7 +351,7 @@ def stepResolve (m : M) (c i : Nat) : M :=
     if r.rc ≥ 1 then m
     else
       let m := m.setCore c (setReq k i { r with rc := r.rc + 1 })
-      let arg : Int := match k.st with | .fulfilled v => v | _ => 0
+      let arg : Int := k.st.val
       match r.kind with
       | .user cb ret _ =>
         let m := { m with log := m.log ++ [.call cb arg] }
@@ -380,7 +380,7 @@ def stepReject (m : M) (c i : Nat) : M :=
     if r.jc ≥ 1 then m
     else
       let m := m.setCore c (setReq k i { r with jc := r.jc + 1 })
-      let e : Nat := match k.st with | .rejected e => e | _ => 0
+      let e : Nat := k.st.exc
       match r.kind with
       | .user _ ret rej =>
         match rej with
@@ -426,7 +426,7 @@ theorem inv_stepResolve (m : M) (c i : Nat) (h : Inv U J m) : Inv U J (stepResol
     · exact h
     · rename_i hrc'
       have hrc : r.rc = 0 := by omega
-      generalize harg : (match (m.core c).st with | .fulfilled v => v | _ => (0 : Int)) = arg
+      generalize harg : (m.core c).st.val = arg
       have hb := inv_bump_rc m c i r arg hget hrc h
       cases hk : r.kind with
       | user cb ret rej =>
@@ -463,7 +463,7 @@ theorem inv_stepReject (m : M) (c i : Nat) (h : Inv U J m) : Inv U J (stepReject
     · exact h
     · rename_i hjc'
       have hjc : r.jc = 0 := by omega
-      generalize he : (match (m.core c).st with | .rejected e => e | _ => (0 : Nat)) = e
+      generalize he : (m.core c).st.exc = e
       have hb := inv_bump_jc m c i r e hget hjc h
       cases hk : r.kind with
       | user cb ret rej =>
